@@ -88,31 +88,80 @@ def _step_call(it, fn, formula, offset, token, in_string, in_path, in_range, in_
                 emitted=[(t.tvalue, t.ttype, t.tsubtype) for t in tokens.items])
 
 
-def _step_native(fn, formula, offset, token, in_string, in_path, in_range, in_error):
-    """natively the loop body cannot be entered in isolation; the interpreter itself runs it on the concrete state"""
-    from pyvc.interp import Interp, RaiseEx
-    it = Interp()
-    out = []
-
-    def thunk():
-        return _step_call(it, fn, formula, offset, token, in_string, in_path, in_range, in_error)
+def trace_scan(formula):
+    """the states of the REAL scan loop at every evaluation of its guard, and right after it, observed natively with
+    sys.settrace while `ExcelParser().getTokens(formula)` runs from its entry -> (states, exception or None)"""
+    import sys
     from xlcalculator import tokenizer
+    f = tokenizer.ExcelParser.getTokens
+    node = func_ast(f)
+    idx = [i for i, n in enumerate(node.body) if isinstance(n, pyast.While) and pyast.unparse(n.test).replace(' ', '') == 'notEOF()']
+    if len(idx) != 1:
+        from pyvc.engine import NotReachable
+        raise NotReachable('scan loop not found')
+    head, after = node.body[idx[0]].lineno, node.body[idx[0] + 1].lineno
+    code = f.__code__
+    states = []
+
+    def local(frame, event, arg):
+        if event == 'line' and frame.f_lineno in (head, after):
+            L = frame.f_locals
+            if 'tokens' in L and 'offset' in L:
+                states.append(dict(offset=L['offset'], token=L.get('token'), inString=L.get('inString'), inPath=L.get('inPath'),
+                                   inRange=L.get('inRange'), inError=L.get('inError'), formula=L.get('formula'),
+                                   emitted=[(t.tvalue, t.ttype, t.tsubtype) for t in L['tokens'].items], done=frame.f_lineno == after))
+        return local
+
+    def tracer(frame, event, arg):
+        return local if frame.f_code is code else None
+    exc = None
+    old = sys.gettrace()
+    sys.settrace(tracer)
     try:
-        tokenizer.ExcelParser().getTokens(formula)        # the REAL function from its entry, natively
-        native_exc = None
+        tokenizer.ExcelParser().getTokens(formula)
     except Exception as ex:      # noqa
-        native_exc = ex
-    res = it.explore(thunk)
-    k, v = res[0][1]
-    if k == 'raise':
-        if native_exc is not None:
-            raise native_exc
-        # the loop state is not reachable from the function's entry for this formula (the real run does not fail):
-        # not a counterexample (DESIGN 2.2)
-        return dict(offset=offset + 1, token=token, inString=in_string, inPath=in_path, emitted=[], unreachable=True)
-    if k != 'ret':
-        raise RuntimeError(str(v))
-    return v
+        exc = ex
+    finally:
+        sys.settrace(old)
+    return states, exc
+
+
+def _realise(formula, offset, token, in_string, in_path):
+    """a formula on which the real scan loop passes through the proposed state: an opening that puts the same constructs
+    on the stack as the harness, then what makes `token` the pending token in the proposed mode, then the rest of the text.
+    (One step only looks at the pending token and at the text from `offset` on.)"""
+    opening = '(F(' if STACK_TOP[0] == 'function' else 'F(('
+    if in_string:
+        lead = '"' + token.replace('"', '""')
+    elif in_path:
+        lead = "'" + token.replace("'", "''")
+    else:
+        lead = token
+    return opening + lead + formula[offset:], len(opening) + len(lead)
+
+
+def _step_native(fn, formula, offset, token, in_string, in_path, in_range, in_error):
+    """ONE step of the real loop, observed natively: the real function is run from its entry on a formula that leads to the
+    proposed state; the state at the next evaluation of the loop guard (or right after the loop) is the step's result.  A
+    proposed state the real run never passes through is not reachable: NotReachable."""
+    from pyvc.engine import NotReachable
+    if in_range or in_error or not (0 <= offset < len(formula)):
+        raise NotReachable('mode not realised by the harness')
+    text, at = _realise(formula, offset, token, in_string, in_path)
+    states, exc = trace_scan(text)
+    want = dict(offset=at, token=token, inString=bool(in_string), inPath=bool(in_path), inRange=False, inError=False)
+    hit = [i for i, st in enumerate(states) if not st['done'] and all(st[k] == v for k, v in want.items()) and st['formula'] == text]
+    if not hit:
+        raise NotReachable(f'the real scan of {text!r} never has offset {at} with pending token {token!r}')
+    i = hit[0]
+    if i + 1 >= len(states):
+        if exc is not None:
+            raise exc                                   # the real function failed inside this very step
+        raise NotReachable('no state after the step was observed')
+    nxt = states[i + 1]
+    shift = at - offset
+    return dict(offset=nxt['offset'] - shift, token=nxt['token'], inString=nxt['inString'], inPath=nxt['inPath'],
+                emitted=nxt['emitted'][len(states[i]['emitted']):])
 
 
 def _char(formula, offset):
@@ -251,6 +300,9 @@ def _normal_req(chars, nxt_not=(), sci_guard=False):
         c += [Not(spec.eq(nx, x)) for x in nxt_not]
         if sci_guard:                      # "1E" + sign continues a number in scientific notation: not an operator
             c += [Not(_suffix(token, 'E')), Not(_suffix(token, 'e'))]
+            # ... and the pending token holds no line break: outside quotes a line break ends the token, and a quoted sheet name is
+            # followed by '!' in a well-formed formula (Python's `$` would let "1E\n" pass the scientific-notation test)
+            c.append(Not(Sym(z3.Contains(lift(token).t, z3.StringVal('\n')), 'bool')) if is_sym(token) else ('\n' not in token))
         return And(*c)
     return req
 
